@@ -285,7 +285,7 @@ def body(ck, F, cfg):
     okv = lastc is not None and isinstance(lastc[0], Cond) and lastc[0].op == "iszero" and lastc[0].neg and isinstance(getattr(lastc[0], "subject", None), Pt)
     okv = okv and isinstance(final, Enum) and final.variant == "Ok" and isinstance(lastc[1], Enum) and lastc[1].variant == "Err" and "VerificationError" in repr(lastc[1])
     ck.require(okv, "R07.4", "verdict", f"batch_verify must return Ok exactly when the single accumulated multiscalar sum is the identity; return value {ret!r}", where)
-    msms = [m for m in I.msm_log if FX.same_fn(m["fn"], P_BATCH)]
+    msms = list(I.msm_log)  # whole dynamic extent of the batch_verify run
     ck.require(len(msms) == 1 and msms[0]["equal"], "R07.3", "single-msm", f"one multiscalar check over equally long lists expected; {[(str(m['len_bases']), str(m['len_scalars'])) for m in msms]}", where)
     ck.floor("accumulation sites", len([o for o in ck.obligations if o[1].startswith("accumulate:")]), 4)
 
